@@ -61,6 +61,17 @@ pub fn any_legal(p: &BPos) -> (u16, Made) {
     (w, m)
 }
 
+/// case split used by the step harnesses: moving kind (0..5, 6 = any) and side to move (0 white, 1 black, 2 = any)
+#[cfg(kani)]
+pub fn any_case(kind: usize, side: u8) -> (Pre, Game, u16, Made) {
+    let p = pos::any_valid();
+    if side < 2 { kani::assume(p.white_to_move == (side == 0)); }
+    let (pre, g) = any_pre_of(p);
+    let (w, m) = any_legal(&pre.p);
+    if kind < 6 { kani::assume(m.kind == kind); }
+    (pre, g, w, m)
+}
+
 /// The rules' post-position after legal move `m` (placement from the oracle's make; rights, ep, side).
 pub fn expected_after(p: &BPos, w: u16, m: &Made) -> BPos {
     let us = p.us();
